@@ -343,12 +343,17 @@ def floor_count(floor, n):
     varies from seed to seed much more than binomial noise would (Hypothesis mutates and re-uses examples, so the
     cases of a run are correlated; measured at seeds 1-7: up to a factor 2.5 for classes of a few dozen cases), and a
     check that fails on the unchanged tree because of that is worse than none.  The run therefore counts a class as
-    starved when it has less than HALF the declared floor (about a quarter of its healthy share), and for classes
-    with a declared floor of fewer than 20 cases per run when it has less than a quarter of it (but at least one
-    case).  A generator that lost a class produces none, or next to none, and is still caught."""
+    starved when it has less than HALF the declared floor (about a quarter of its healthy share), for classes with a
+    declared floor of fewer than 20 cases per run when it has less than a quarter of it; floors of fewer than 12 cases
+    per run are advisory (recorded in the evidence, never an error).  A generator that lost a class with a real floor
+    produces none, or next to none, and is still caught."""
     want = floor * n
+    if want < 12:
+        # (advisory only: a class this small - a per-operator or per-container split of a larger class that has a
+        # floor of its own - was seen with NO case at all at one seed in thirteen although it usually has twenty)
+        return 0.0
     if want < 20:
-        return max(1.0 if want >= 2 else 0.0, 0.25 * want)
+        return 0.25 * want
     return 0.5 * want
 
 
